@@ -18,6 +18,11 @@ def epsOf (e : Float) : Option Float := epsOption e
 
 def styleOf (s : String) : EpsStyle := if s == "plus" then .plus else if s == "max" then .max else .where_
 
+/-- `np.linspace(0, K, N, dtype=int, endpoint=False)[n]`: NumPy computes `step = K / N` and `floor(n * step)` in
+double precision — NOT `⌊n·K/N⌋` (e.g. `K = 2, N = 98, n = 49` gives `0`).  Driver-only (`Float`), compared exactly. -/
+def flagLabelF (K N n : Nat) : Nat :=
+  (Float.floor (Float.ofNat n * (Float.ofNat K / Float.ofNat N))).toUInt64.toNat
+
 def tieOf (a : Array String) (off : Nat) : Tie := ⟨tokNat a off == 1, tokNat a (off+1) == 1, tokNat a (off+2) == 1⟩
 
 /-- posterior over a whole `(F, K+1, T)` array: `wf f k t` = broadcast weight, `lpf` = log-pdf -/
@@ -116,7 +121,7 @@ def opsPosterior (a : Array String) : Option String :=
   | "flaglabels" =>
     -- flaglabels K N
     let K := tokNat a 1; let N := tokNat a 2
-    some (fmtNats ((List.range N).map (flagLabel K N)))
+    some (fmtNats ((List.range N).map (flagLabelF K N)))
   | "flag" =>
     -- flag K N <minimum> <labels N ints>          (branch minimum != 0; minimum == 0 is `onehot`)
     let K := tokNat a 1; let N := tokNat a 2
